@@ -145,6 +145,7 @@ def replay(case, timeout=8.0):
     async def one(ro):
         rt.RUN.set(ro.tag)
         kw = {'x': ('IN', ro.tag, ro.val)}
+        kw.update(prog.get('extra_inputs') or {})
         try:
             res = await chart.run(pipeline_id=ro.tag, input_kwargs=kw)
         except BaseException as e:  # noqa: BLE001
